@@ -431,7 +431,7 @@ class TV:
 
     def collect_obs(self, p, where):
         fam = {"input-read-in-bounds": "memsafe", "deref-valid": "memsafe", "index-in-bounds": "memsafe", "memcpy-fits-dest": "memsafe",
-               "memcpy-fits-src": "memsafe", "free-valid": "memsafe", "no-leak": "memsafe", "fits-type": "memsafe", "decl": "wellformed",
+               "memcpy-fits-src": "memsafe", "free-valid": "memsafe", "no-leak": "memsafe", "fits-type": "memsafe", "unsequenced": "memsafe", "decl": "wellformed",
                "literal-escape-in-range": "refine"}
         for ob in p["obs"]:
             self.prove(fam.get(ob.kind, "memsafe"), f"{where}/L{ob.line}.{ob.kind}", ob.cond, ob.goal, ob.text, ob.line)
